@@ -194,7 +194,9 @@ fn run_share(cli: &Cli, plan: &Plan, runs: u64, part: u64, of: u64, jobs: usize)
     let lookups_always = cli.property == "C11";
     let max_steps: Option<usize> = cli.extra.get("steps").and_then(|s| s.parse().ok());
     let seed = cli.seed;
-    let mine: Vec<u64> = (0..runs).filter(|i| i % of == part).collect();
+    // Debugging aid (never set by the registered commands): run one index of the batch only.
+    let only: Option<u64> = std::env::var("DAGSIM_ONLY").ok().and_then(|v| v.parse().ok());
+    let mine: Vec<u64> = (0..runs).filter(|i| i % of == part && only.is_none_or(|o| o == *i)).collect();
     let outcomes: Vec<(u64, Cfg, Outcome)> = vcommon::parallel_map(mine.len() as u64, jobs, |k| {
         let i = mine[k as usize];
         let s = vcommon::mix(seed, i);
